@@ -33,7 +33,14 @@ type TraceFile struct {
 
 // Matches reports whether f is the failure class this trace was recorded for.
 func (tf *TraceFile) Matches(f Failure) bool {
-	return f.Property == tf.Property && f.Oracle == tf.Oracle && (tf.Site == "" || f.Site == tf.Site)
+	if f.Property != tf.Property || f.Oracle != tf.Oracle {
+		return false
+	}
+	if tf.Oracle == "C13/race" {
+		// which two of several conflicting accesses the detector pairs up is its own choice
+		return true
+	}
+	return tf.Site == "" || f.Site == tf.Site
 }
 
 func propHash(p string) uint64 {
